@@ -140,7 +140,8 @@ func (e *Env) getVersionShape(gv *types.Func) {
 	}
 	// the tokeniser: strings.Split(vec, ":") with len == 2, or strings.Cut(vec, ":") with found and no further ':'
 	// in the rest (the same prefixes pass, with the same two parts)
-	var sp, cut *ir.Term
+	var sp, cut, cutp *ir.Term
+	nTok := 0
 	for _, lf := range leaves {
 		for _, ef := range lf.Effects {
 			if ef.Kind == "call" && isCallOf(ef.Val, "strings.Split") {
@@ -149,11 +150,20 @@ func (e *Env) getVersionShape(gv *types.Func) {
 			if ef.Kind == "call" && isCallOf(ef.Val, "strings.Cut") {
 				cut = ef.Val
 			}
+			if ef.Kind == "call" && isCallOf(ef.Val, "strings.CutPrefix") {
+				cutp = ef.Val
+			}
 		}
 	}
-	if (sp == nil) == (cut == nil) {
+	for _, t := range []*ir.Term{sp, cut, cutp} {
+		if t != nil {
+			nTok++
+		}
+	}
+	tagByPrefix := false
+	if nTok != 1 {
 		// another tokeniser (an index scan, ...): whether it accepts exactly "CVSS:<label>" is not decided here
-		c.Undecided("version-prefix", who, e.P.Pos(gv.Pos()), `the prefix is not taken apart by exactly one strings.Split(<parameter>, ":") or strings.Cut(<parameter>, ":"); the rule knows no equivalence for the tokeniser used`)
+		c.Undecided("version-prefix", who, e.P.Pos(gv.Pos()), `the prefix is not taken apart by exactly one strings.Split(<parameter>, ":"), strings.Cut(<parameter>, ":") or strings.CutPrefix(<parameter>, "CVSS:"); the rule knows no equivalence for the tokeniser used`)
 		return
 	}
 	var shape []*ir.Term
@@ -165,6 +175,18 @@ func (e *Env) getVersionShape(gv *types.Func) {
 		}
 		shape = []*ir.Term{ir.Bin("==", intConst(2), lenOf(sp))}
 		part0, part1 = idx(sp, 0), idx(sp, 1)
+	} else if cutp != nil {
+		// strings.CutPrefix(vec, "CVSS:") with found and no ':' in what follows: the same strings pass - exactly
+		// those that split at ':' into "CVSS" and one more part - and what follows is that part
+		if len(cutp.Args) != 2 || cutp.Args[0].Op != ir.OParam || !isStringConst(cutp.Args[1], "CVSS:") {
+			c.Fail("version-prefix", who, e.P.Pos(gv.Pos()), `the prefix is not taken off as strings.CutPrefix(<parameter>, "CVSS:")`)
+			return
+		}
+		part1 = ext(cutp, 0)
+		part0 = &ir.Term{Op: ir.OOpaque, Str: "the tag is part of the prefix constant"}
+		tagByPrefix = true
+		contains := ir.Call(e.externFunc(gv.Pkg(), "strings", "Contains"), part1, ir.Const(constant.MakeString(":"), types.Typ[types.String]))
+		shape = []*ir.Term{ext(cutp, 1), ir.NotCond(contains)}
 	} else {
 		if len(cut.Args) != 2 || cut.Args[0].Op != ir.OParam || !isStringConst(cut.Args[1], ":") {
 			c.Fail("version-prefix", who, e.P.Pos(gv.Pos()), `the prefix is not taken apart as strings.Cut(<parameter>, ":")`)
@@ -177,7 +199,7 @@ func (e *Env) getVersionShape(gv *types.Func) {
 	verT := gv.Type().(*types.Signature).Results().At(0).Type()
 	ps := parsersOf(gv.Pkg(), verT)
 	if len(ps) == 0 {
-		e.getVersionInline(gv, leaves, shape, part0, part1, verT)
+		e.getVersionInline(gv, leaves, shape, part0, part1, verT, tagByPrefix)
 		return
 	}
 	nAcc := 0
@@ -192,7 +214,7 @@ func (e *Env) getVersionShape(gv *types.Func) {
 			for _, g := range shape {
 				okLen = okLen && hasGuard(lf, g)
 			}
-			okTag := false
+			okTag := tagByPrefix
 			for _, g := range lf.Guards {
 				if s, ok := nameEq(g, part0, "=="); ok && s == "CVSS" {
 					okTag = true
@@ -221,7 +243,7 @@ func (e *Env) getVersionShape(gv *types.Func) {
 // instead of being a func(string) Version of its own: every accepting path has the prefix shape, is selected by
 // comparisons of the second part with string constants only, and returns the constant that prints as the label it
 // was selected by (the unknown version when no label matched); every label of the specification has its path.
-func (e *Env) getVersionInline(gv *types.Func, leaves []*ir.Leaf, shape []*ir.Term, part0, part1 *ir.Term, verT types.Type) {
+func (e *Env) getVersionInline(gv *types.Func, leaves []*ir.Leaf, shape []*ir.Term, part0, part1 *ir.Term, verT types.Type, tagByPrefix bool) {
 	c := e.C
 	who := fname(gv)
 	shapeKey := map[string]bool{}
@@ -244,7 +266,7 @@ func (e *Env) getVersionInline(gv *types.Func, leaves []*ir.Leaf, shape []*ir.Te
 		for _, g := range shape {
 			okLen = okLen && hasGuard(lf, g)
 		}
-		okTag, okRest := false, true
+		okTag, okRest := tagByPrefix, true
 		label := ""
 		for _, g := range lf.Guards {
 			if shapeKey[g.Key()] {
